@@ -1,6 +1,6 @@
 #![allow(clippy::excessive_precision)]
 use crate::DualNum;
-use num_traits::{Float, Zero};
+use num_traits::Float;
 use std::f64::consts::{FRAC_2_PI, FRAC_PI_4};
 
 /// Implementation of bessel functions for double precision (hyper) dual numbers.
@@ -51,9 +51,16 @@ pub trait BesselDual: DualNum<f64> + Copy {
 
     /// 2nd order bessel function of the first kind
     fn bessel_j2(self) -> Self {
-        if self.re().is_zero() {
+        if self.re().abs() < 0.5 {
+            // The recurrence below divides by x and cancels for small arguments (its k-th
+            // derivative loses a factor 1/x^(k+1)), so sum the power series instead:
+            // J2 = x^2/8 * (1 - x^2/12 * (1 - x^2/32 * (1 - ...))), ratios 4k(k+2).
             let z = self * self;
-            z / 8.0 * (Self::one() - z / 12.0 * (Self::one() - z / 32.0))
+            let mut t = Self::one();
+            for k in (1..=10).rev() {
+                t = Self::one() - z / (4 * k * (k + 2)) as f64 * t;
+            }
+            z / 8.0 * t
         } else {
             self.bessel_j1() * 2.0 / self - self.bessel_j0()
         }
